@@ -12,7 +12,7 @@ import (
 )
 
 func init() {
-	Register(&PropDef{ID: "C06", Run: runC06})
+	Register(&PropDef{ID: "C06", Run: runC06, Drops: true})
 }
 
 // runC06: Router.Close / RemoveRealm invoked at a drawn scheduling point of a
